@@ -2,7 +2,7 @@
     returns packets, as dispatched by [exec] on a heap of objects; the raw relation between two runs of the same
     calls; histories; tunnel nesting; eth::frame / eth::from_ip through [exec] and the binder.
     Pinned statements only; proofs in Proofs/C18/{LibTwinBase,LibTwinTcp,LibTwinFns,LibTwinTun,LibTwinAll,
-    LibTwinNest,FrameCalls}.v.
+    LibTwinNest,LibTwinProg,FrameCalls}.v.
 
     Vocabulary (spelled out in C18b_vocabulary / C18b_relations):
     [framed raw eth l3] = [l3] when raw, else [eth ++ l3]; [eth_for s d] = 00:02:d 00:02:s 0800 (the header
@@ -22,7 +22,7 @@ From RS Require Import Base.Bytes Base.Outcome Bind.Types Bind.Binder Pkt.Csum P
   Proofs.C03.LibCalls Proofs.C03.LibTcp Proofs.C03.LibUdp Proofs.C03.LibIcmp Proofs.C03.LibFrame
   Proofs.C06.Nesting Proofs.C07.Compose Proofs.C07.LibFrag
   Proofs.C18.Framing Proofs.C18.LibTwinBase Proofs.C18.LibTwinTcp Proofs.C18.LibTwinFns Proofs.C18.LibTwinTun
-  Proofs.C18.LibTwinAll Proofs.C18.LibTwinNest Proofs.C18.FrameCalls.
+  Proofs.C18.LibTwinAll Proofs.C18.LibTwinNest Proofs.C18.LibTwinProg Proofs.C18.FrameCalls.
 From RSGen Require Import Catalogue.
 Open Scope list_scope.
 Open Scope N_scope.
@@ -72,7 +72,7 @@ Theorem C18b_relations :
      end)
   /\ (forall OT r1 r2 a h1 h2 pl x y, resT OT r1 r2 a h1 h2 pl x y <->
      exists o1' o2', snd x = set_nth h1 a o1' /\ snd y = set_nth h2 a o2' /\ OT o1' o2' /\ valT r1 r2 pl (fst x) (fst y))
-  /\ (forall r1 r2 h pl x y, fn_resT r1 r2 h pl x y <-> snd x = h /\ snd y = h /\ valT r1 r2 pl (fst x) (fst y)).
+  /\ (forall r1 r2 h1 h2 pl x y, fn_resT r1 r2 h1 h2 pl x y <-> snd x = h1 /\ snd y = h2 /\ valT r1 r2 pl (fst x) (fst y)).
 Proof.
   split; [intros; apply orel_iff|]. split; [intros; reflexivity|]. split; [intros; apply valT_iff|].
   split; [intros; apply Forall3_iff|]. split; intros; reflexivity.
@@ -209,26 +209,26 @@ Proof. exact twin_history. Qed.
 
 (** 2d. raw: as an argument of the call: ipv4::udp::unicast / broadcast, dns::host, and the IpFrag methods
     (an IpFrag object has no flag and never changes, so every call of a history is covered one by one) *)
-Theorem C18b_unicast_twin : forall e slots1 slots2 extra h r1 r2,
+Theorem C18b_unicast_twin : forall e slots1 slots2 extra h1 h2 r1 r2,
   raw_slots r1 r2 slots1 slots2 ->
-  oorel (fn_resT r1 r2 h (unicast_eth slots1))
-    (exec e "ipv4::udp::unicast" None slots1 extra h) (exec e "ipv4::udp::unicast" None slots2 extra h).
+  oorel (fn_resT r1 r2 h1 h2 (unicast_eth slots1))
+    (exec e "ipv4::udp::unicast" None slots1 extra h1) (exec e "ipv4::udp::unicast" None slots2 extra h2).
 Proof. exact unicast_twin. Qed.
-Theorem C18b_broadcast_twin : forall e slots1 slots2 extra h r1 r2,
+Theorem C18b_broadcast_twin : forall e slots1 slots2 extra h1 h2 r1 r2,
   raw_slots r1 r2 slots1 slots2 ->
-  oorel (fn_resT r1 r2 h (broadcast_eth slots1))
-    (exec e "ipv4::udp::broadcast" None slots1 extra h) (exec e "ipv4::udp::broadcast" None slots2 extra h).
+  oorel (fn_resT r1 r2 h1 h2 (broadcast_eth slots1))
+    (exec e "ipv4::udp::broadcast" None slots1 extra h1) (exec e "ipv4::udp::broadcast" None slots2 extra h2).
 Proof. exact broadcast_twin. Qed.
-Theorem C18b_dns_host_twin : forall e slots1 slots2 extra h r1 r2,
+Theorem C18b_dns_host_twin : forall e slots1 slots2 extra h1 h2 r1 r2,
   raw_slots r1 r2 slots1 slots2 ->
-  oorel (fn_resT r1 r2 h (dns_host_eth slots1))
-    (exec e "dns::host" None slots1 extra h) (exec e "dns::host" None slots2 extra h).
+  oorel (fn_resT r1 r2 h1 h2 (dns_host_eth slots1))
+    (exec e "dns::host" None slots1 extra h1) (exec e "dns::host" None slots2 extra h2).
 Proof. exact dns_host_twin. Qed.
-Theorem C18b_frag_twin : forall e ms name key slots1 slots2 extra h a f r1 r2,
+Theorem C18b_frag_twin : forall e ms name key slots1 slots2 extra h1 h2 a f r1 r2,
   assoc frag_class class_table = Some ms -> In (name, key) ms ->
-  nth_error h a = Some (OFrag f) -> raw_slots r1 r2 slots1 slots2 ->
-  oorel (fn_resT r1 r2 h (frag_eth_plan f name slots1))
-    (exec e key (Some a) slots1 extra h) (exec e key (Some a) slots2 extra h).
+  nth_error h1 a = Some (OFrag f) -> nth_error h2 a = Some (OFrag f) -> raw_slots r1 r2 slots1 slots2 ->
+  oorel (fn_resT r1 r2 h1 h2 (frag_eth_plan f name slots1))
+    (exec e key (Some a) slots1 extra h1) (exec e key (Some a) slots2 extra h2).
 Proof. exact frag_method_twin. Qed.
 
 Theorem C18b_fn_plans : forall a p b q c r f off l rv,
@@ -243,6 +243,39 @@ Theorem C18b_fn_plans : forall a p b q c r f off l rv,
                     /\ (forall es, broadcast_eth slots = Some es -> eth_len_ok es)
                     /\ (forall es, dns_host_eth slots = Some es -> eth_len_ok es)).
 Proof. intros. repeat split; apply fn_eth_len. Qed.
+
+(** 2e. two whole call sequences -- "the same program with raw mode r1 / r2": call by call (1) the same method
+    call on any object of a class with a raw flag, (2) a constructor with raw: r1 / r2, (3) unicast / broadcast /
+    dns::host with raw: r1 / r2, (4) an IpFrag method with raw: r1 / r2, (5) the same ipv4::frag constructor
+    call.  If the first sequence runs, so does the second, the heaps stay pointwise twins with flags r1 / r2, and
+    every pair of returned values is the very same value or packets pairwise [framed r1 eth l3] /
+    [framed r2 eth l3] with 14-byte headers (with r1 = false, r2 = true: C18b_raw_relation).
+    Not covered: a tunnel call whose inner packets differ between the two runs (slots are compared as values) *)
+Theorem C18b_program_defs :
+  (forall r1 r2 c1 c2, pairT r1 r2 c1 c2 <->
+     c_key c1 = c_key c2 /\ c_this c1 = c_this c2 /\ c_extra c1 = c_extra c2 /\
+     ( (c_slots c1 = c_slots c2 /\ exists cls name, In cls raw_classes /\ class_method cls name (c_key c1))
+       \/ (c_this c1 = None /\ In (c_key c1) raw_ctor_keys /\ raw_slots r1 r2 (c_slots c1) (c_slots c2))
+       \/ (c_this c1 = None /\ In (c_key c1) ["ipv4::udp::unicast"; "ipv4::udp::broadcast"; "dns::host"]%string
+            /\ raw_slots r1 r2 (c_slots c1) (c_slots c2))
+       \/ ((exists name, class_method frag_class name (c_key c1)) /\ raw_slots r1 r2 (c_slots c1) (c_slots c2))
+       \/ (c_this c1 = None /\ c_key c1 = "ipv4::frag"%string /\ c_slots c1 = c_slots c2) ))
+  /\ (forall r1 r2 h1 h2, heapT r1 r2 h1 h2 <->
+        Forall2 (fun o1 o2 => obj_twin o1 o2 /\ (In (obj_class o1) raw_classes -> obj_raw o1 = r1 /\ obj_raw o2 = r2)) h1 h2)
+  /\ (forall r1 r2 v1 v2, pair_valT r1 r2 v1 v2 <->
+        exists pl, (forall es, pl = Some es -> eth_len_ok es) /\ valT r1 r2 pl v1 v2)
+  /\ (forall r1 r2, heapT r1 r2 [] [])
+  /\ raw_ctor_keys = ["ipv4::tcp::flow"; "ipv4::udp::flow"; "ipv4::icmp::flow"; "vxlan::session"; "gre::session";
+                      "erspan1::session"; "erspan2::session"]%string.
+Proof.
+  split; [intros; reflexivity|]. split; [intros; reflexivity|]. split; [intros; reflexivity|].
+  split; [exact heapT_nil|reflexivity].
+Qed.
+
+Theorem C18b_program_twin : forall e r1 r2 cs1 cs2 h1 h2 vs1 h1',
+  Forall2 (pairT r1 r2) cs1 cs2 -> heapT r1 r2 h1 h2 -> run_hist e cs1 h1 = Some (vs1, h1') ->
+  exists vs2 h2', run_hist e cs2 h2 = Some (vs2, h2') /\ heapT r1 r2 h1' h2' /\ Forall2 (pair_valT r1 r2) vs1 vs2.
+Proof. exact program_twin. Qed.
 
 (* ------------------------------------------------------------------ 3. tunnels at any nesting depth *)
 (** one layer, two raw modes, ANY inner frame b: one datagram, with and without the header of the SESSION's
@@ -324,6 +357,15 @@ Theorem C18b_from_ip_binder : forall a,
   /\ argvec val val_type val_of_valdef f [(None, VIp4 a)] = Ok ([VIp4 a], [])
   /\ argvec val val_type val_of_valdef f [(Some "ip"%string, VIp4 a)] = Ok ([VIp4 a], []).
 Proof. exact from_ip_binder. Qed.
+
+(** through [call] (what [eval] does for a call expression once callee and arguments are evaluated): binder,
+    [exec], return-type check -- positional and named addresses give the same frame *)
+Theorem C18b_frame_call : forall e p s d et data,
+  len s = 6 -> len d = 6 -> et < 65536 ->
+  let r := ROk (VPkt (pkt_of_body (d ++ s ++ be16 et ++ data))) (set_heap (add_trace p "eth::frame") (p_heap p)) in
+  Eval.call catalogue (exec e) p "eth::frame" None [(None, VStr s); (None, VStr d); (Some "ethertype"%string, VU16 et); (None, VStr data)] = r
+  /\ Eval.call catalogue (exec e) p "eth::frame" None [(Some "dst"%string, VStr d); (Some "src"%string, VStr s); (Some "ethertype"%string, VU16 et); (None, VStr data)] = r.
+Proof. exact frame_call. Qed.
 
 (* ------------------------------------------------------------------ 5. non-vacuity *)
 (** through [exec]: the same flow constructor with raw: false / raw: true (spelled 256: any non-zero integer is
